@@ -7,7 +7,6 @@ import json
 import os
 import sys
 
-sys.setrecursionlimit(10000)
 HERE = os.path.dirname(os.path.abspath(__file__))
 sys.path.insert(0, os.path.dirname(HERE))
 
